@@ -18,10 +18,15 @@ def instantiate(templates):
     return {k: t.format(a=n, b=n + 1, c=n + 2) for k, t in templates.items()}
 
 
+# spellings of ONE expression that differ only in white space - one of them with a no-break space, which is no white space of the grammar (always SyntaxError)
+CONDWS = {"s1": "[{a}] U [{b}]", "s2": "[{a}]\u00a0U\u00a0[{b}]", "s3": "[{a}]\tU  [{b}]"}
+
+
 def parsers():
     import ahbicht.expressions.ahb_expression_parser as ap
     import ahbicht.expressions.condition_expression_parser as cp
     return {"cond": (cp.parse_condition_expression_to_tree, cp._parser, COND, "[%d]"),
+            "condws": (cp.parse_condition_expression_to_tree, cp._parser, CONDWS, "[%d]"),
             "ahb": (ap.parse_ahb_expression_to_single_requirement_indicator_expressions, ap._parser, AHBS, "M[%d]")}
 
 
@@ -56,7 +61,7 @@ def raw_parser(which):
     import lark
     import ahbicht.expressions.ahb_expression_parser as ap
     import ahbicht.expressions.condition_expression_parser as cp
-    mod, start = (cp, "expression") if which == "cond" else (ap, "ahb_expression")
+    mod, start = (cp, "expression") if which in ("cond", "condws") else (ap, "ahb_expression")
     p = getattr(mod, "_parser", None)
     return p if p is not None else lark.Lark(mod.GRAMMAR, start=start)
 
@@ -66,18 +71,37 @@ def replay_history(which, hist, acc):
     fn, _, templates, filler = parsers()[which]
     strings = instantiate(templates)
     raw = raw_parser(which)
-    pristine = {k: ahb.tree_shape(raw.parse(s)) for k, s in strings.items()}
+
+    def outcome(f, text):
+        try:
+            return ahb.tree_shape(f(text)), None
+        except SyntaxError:
+            return "SyntaxError", None
+        except BaseException as e:  # pylint:disable=broad-except
+            return ("SyntaxError" if type(e).__module__.startswith("lark") else "exception " + type(e).__name__), None
+
+    pristine = {k: outcome(raw.parse, s)[0] for k, s in strings.items()}
     handed = []
     for step, a in enumerate(hist):
         if a[0] == "parse":
-            t = fn(strings[a[1]])
+            try:
+                t = fn(strings[a[1]])
+                shape = ahb.tree_shape(t)
+            except SyntaxError:
+                t, shape = None, "SyntaxError"
             handed.append(t)
+            if shape != pristine[a[1]]:
+                acc["viol"].append((f"{which} parser, history {list(hist[:step + 1])}: parse({strings[a[1]]!r}) gave {shape}, "
+                                    f"a fresh parse gives {pristine[a[1]]}", {"which": which, "history": [list(x) for x in hist[:step + 1]]}))
+                return
+            continue
             if ahb.tree_shape(t) != pristine[a[1]]:
                 acc["viol"].append((f"{which} parser, history {list(hist[:step + 1])}: parse({strings[a[1]]!r}) returned {ahb.tree_shape(t)}, "
                                     f"a fresh parse gives {pristine[a[1]]}", {"which": which, "history": [list(x) for x in hist[:step + 1]]}))
                 return
         elif a[0] == "edit":
-            apply_edit(cell(handed[a[1] - 1], a[2]), a[3])
+            if handed[a[1] - 1] is not None:
+                apply_edit(cell(handed[a[1] - 1], a[2]), a[3])
         else:
             n = cache_maxsize(which)
             for _ in range(n):
@@ -89,7 +113,7 @@ def replay_history(which, hist, acc):
 def cache_maxsize(which):
     import ahbicht.expressions.ahb_expression_parser as ap
     import ahbicht.expressions.condition_expression_parser as cp
-    mod, name = (cp, "parse_condition_expression_to_tree") if which == "cond" else (ap, "parse_ahb_expression_to_single_requirement_indicator_expressions")
+    mod, name = (cp, "parse_condition_expression_to_tree") if which in ("cond", "condws") else (ap, "parse_ahb_expression_to_single_requirement_indicator_expressions")
     fn = getattr(mod, name)
     # tree_copy's closure holds the lru_cache'd function; otherwise look for lru_cache'd functions in the module
     cands = [c.cell_contents for c in (fn.__closure__ or ())] + list(vars(mod).values())
@@ -114,7 +138,7 @@ def _worker(args):
             if acc["floods"] >= flood_budget or rng.random() > 0.02:
                 continue
             acc["floods"] += 1
-        for which in ("cond", "ahb"):
+        for which in ("cond", "ahb", "condws"):
             try:
                 replay_history(which, hist, acc)
             except MachineryError:
